@@ -172,12 +172,17 @@ def x_chain(tier='quick', decoy=False):
     empty = CT('Bare', None, base='t:Base')
     comps = [base, mid, leaf, empty]
     order = Selector('order', perms(4) if tier == 'thorough' else [(0, 1, 2, 3), (3, 2, 1, 0), (1, 0, 3, 2), (2, 3, 0, 1), (2, 0, 3, 1), (3, 1, 2, 0)])
-    if decoy:
+    if decoy == 'global':
+        # global ELEMENTS named like the types they are of (the usual doc/literal shape): elements and types are separate symbol
+        # spaces, base= denotes the type. One element is declared before every type, the other after.
+        comps = [GEl('Base', type='t:Base')] + comps + [GEl('Mid', type='t:Mid')]
+        order = Selector('order', [(0,) + tuple(i + 1 for i in p) + (5,) for p in order.options])
+    elif decoy:
         dec = CT('Decoy', Seq([El('Base', 'xs:string'), El('Mid', 'xs:int')]), attrs=[Attr('Leaf', 'xs:string')])
         comps = [dec] + comps
         order = Selector('order', [(0,) + tuple(i + 1 for i in p) for p in order.options])
     sch = Schema(NS1, comps, prefixes={'t': NS1}, order=order)
-    sc = Scenario('X-chain' + ('-decoy' if decoy else ''), {'a.xsd': sch}, 'a.xsd', [order])
+    sc = Scenario('X-chain' + ('-global-elements' if decoy == 'global' else '-decoy' if decoy else ''), {'a.xsd': sch}, 'a.xsd', [order])
     return sc, Info(schemas={'a.xsd': sch}, subjects=[('a.xsd', base)], derived=[('a.xsd', mid, ('a.xsd', base)), ('a.xsd', leaf, ('a.xsd', mid)), ('a.xsd', empty, ('a.xsd', base))],
                     simple=[], bases={'Base': None, 'Mid': ('a.xsd', base), 'Leaf': ('a.xsd', mid), 'Bare': ('a.xsd', base)})
 
@@ -232,7 +237,7 @@ def q_rebind(tier='quick'):
 
 # ------------------------------------------------------------------------------------------------ C10: namespaces
 
-ADV_URIS = ['http://example.com/v1/types', 'http://example.com/v2/types', 'http://example.com/typ', 'urn:example:types',
+ADV_URIS = ['http://example.com/v1/types', 'http://example.com/v2/types', 'http://example.com/v3/Types', 'http://example.com/typ', 'urn:example:types',
             'http://example.com/api/v11', 'http://example.com/api/v1', 'http://example.com/services/zoë', 'http://example.com/types/', 'http://example.com/my-types', 'http://example.com/t.y.p.e', 'http://example.com/v1/messages']
 
 
@@ -356,6 +361,46 @@ def x_cross3(tier='quick'):
     return sc, Info(schemas={'main.xsd': sch_a, 'mid.xsd': sch_m, 'core.xsd': sch_c}, subjects=[('core.xsd', core)],
                     derived=[('mid.xsd', mid, ('core.xsd', core)), ('main.xsd', leaf, ('mid.xsd', mid))], simple=[],
                     bases={'CoreType': None, 'MidType': ('core.xsd', core), 'LeafType': ('mid.xsd', mid)})
+
+
+def x_samename(tier='quick'):
+    """local names shared across namespaces: a.xsd declares Address (extending the imported m:Address) and Item, and Special
+    extending its OWN t:Item, which may be declared after it; b.xsd has an unrelated Item. Declaration order in a.xsd symbolic."""
+    b_addr = CT('Address', Seq([El('street', 'xs:string'), El('city', 'xs:string')]), attrs=[Attr('country', 'xs:string')])
+    b_item = CT('Item', Seq([El('code', 'xs:string')]), attrs=[Attr('flag', 'xs:boolean')])
+    sch_b = Schema(NS2, [b_addr, b_item], prefixes={'m': NS2})
+    a_addr = CT('Address', Seq([El('note', 'xs:string')]), base='m:Address', ext_attrs=[Attr('preferred', 'xs:boolean')])
+    a_item = CT('Item', Seq([El('sku', 'xs:string'), El('qty', 'xs:int')]), attrs=[Attr('lineNo', 'xs:int')])
+    special = CT('Special', Seq([El('discount', 'xs:int')]), base='t:Item')
+    order = Selector('order', perms(3))
+    sch_a = Schema(NS1, [a_addr, a_item, special], prefixes={'t': NS1, 'm': NS2}, imports=[(NS2, 'b.xsd')], order=order)
+    sc = Scenario('X-samename', {'a.xsd': sch_a, 'b.xsd': sch_b}, 'a.xsd', [order])
+    return sc, Info(schemas={'a.xsd': sch_a, 'b.xsd': sch_b}, subjects=[('b.xsd', b_item), ('a.xsd', a_item)],
+                    derived=[('a.xsd', a_addr, ('b.xsd', b_addr)), ('a.xsd', special, ('a.xsd', a_item))], simple=[],
+                    bases={('a.xsd', 'Address'): ('b.xsd', b_addr), ('b.xsd', 'Address'): None, ('a.xsd', 'Item'): None, ('b.xsd', 'Item'): None, ('a.xsd', 'Special'): ('a.xsd', a_item)})
+
+
+def x_diamond(tier='quick'):
+    """diamond import: top.xsd imports left.xsd and right.xsd, both import common.xsd and extend its type; the order of
+    the two imports in top.xsd is symbolic"""
+    NSL, NSR, NSC = 'http://example.com/left', 'http://example.com/right', 'http://example.com/common'
+    common = CT('Common', Seq([El('id', 'xs:string')]), attrs=[Attr('rev', 'xs:int')])
+    sch_c = Schema(NSC, [common], prefixes={'com': NSC})
+    left = CT('Left', Seq([El('l', 'xs:string')]), base='com:Common')
+    sch_l = Schema(NSL, [left], prefixes={'lef': NSL, 'com': NSC}, imports=[(NSC, 'common.xsd')])
+    right = CT('Right', Seq([El('r', 'xs:int')]), base='com:Common')
+    sch_r = Schema(NSR, [right], prefixes={'rig': NSR, 'com': NSC}, imports=[(NSC, 'common.xsd')])
+    top = CT('Top', Seq([El('t', 'xs:string'), El('other', 'rig:Right')]), base='lef:Left')
+    first = Selector('first_import', ['left', 'right'])
+    imp_a = smap(lambda f: 'left.xsd' if f == 'left' else 'right.xsd', first.sym())
+    imp_b = smap(lambda f: 'right.xsd' if f == 'left' else 'left.xsd', first.sym())
+    ns_a = smap(lambda f: NSL if f == 'left' else NSR, first.sym())
+    ns_b = smap(lambda f: NSR if f == 'left' else NSL, first.sym())
+    sch_t = Schema(NS1, [top], prefixes={'app': NS1, 'lef': NSL, 'rig': NSR}, imports=[(ns_a, imp_a), (ns_b, imp_b)])
+    sc = Scenario('X-diamond', {'top.xsd': sch_t, 'left.xsd': sch_l, 'right.xsd': sch_r, 'common.xsd': sch_c}, 'top.xsd', [first])
+    return sc, Info(schemas={'top.xsd': sch_t, 'left.xsd': sch_l, 'right.xsd': sch_r, 'common.xsd': sch_c}, subjects=[('common.xsd', common)],
+                    derived=[('left.xsd', left, ('common.xsd', common)), ('right.xsd', right, ('common.xsd', common)), ('top.xsd', top, ('left.xsd', left))], simple=[],
+                    bases={'Common': None, 'Left': ('common.xsd', common), 'Right': ('common.xsd', common), 'Top': ('left.xsd', left)})
 
 
 def three_ns_doc():
@@ -505,9 +550,14 @@ def departure_doc(xml_text, budget=1, tag=''):
             b = z3.Bool('%sdrop_at_%d_%s' % (tag, idx, k))
             flags.append(b)
             val = v
-            if k in QNAME_ATTRS and isinstance(v, str):
-                pfx = v.split(':')[0] + ':' if ':' in v else ''
-                opts = [v, pfx + 'DoesNotExist'] + ([pfx + own_name] if own_name and pfx + own_name != v else [])
+            if isinstance(v, str) and not k.startswith('xmlns'):
+                # the value may also be empty or blank (legal for list-valued attributes such as parts="", and what a careless
+                # edit leaves behind); QName-valued attributes may in addition dangle or point at their own component
+                opts = [v]
+                if k in QNAME_ATTRS:
+                    pfx = v.split(':')[0] + ':' if ':' in v else ''
+                    opts += [pfx + 'DoesNotExist'] + ([pfx + own_name] if own_name and pfx + own_name != v else [])
+                opts += [x for x in ('', '  ') if x != v]
                 sel = Selector('%sqn_%d_%s' % (tag, idx, k), opts)
                 sels.append(sel)
                 val = sel.sym()
@@ -519,10 +569,12 @@ def departure_doc(xml_text, budget=1, tag=''):
 
 # ------------------------------------------------------------------------------------------------ C14: injection sites
 
-IDENT_DOM = ['Item', 'type', 'Self', 'self', 'async', 'my-name', 'a.b', 'été']
+IDENT_DOM = ['Item', 'type', 'Self', 'self', 'async', 'my-name', 'a.b', 'été', 'x*/ fn marker() {} /*', 'y /* z']
 LIT_DOM = ['plain', 'a"b', 'a\\b', 'a\\nb', 'a{b}', '"; fn marker() {} //']
 URI_DOM = ['http://example.com/orders/v1', 'http://example.com/a"b', 'http://example.com/x{y}', 'http://example.com/a+b~c', 'urn:x:"q"']
-URL_DOM = ['http://example.com/orders', 'http://example.com/a"b', 'http://example.com/a\\b', 'http://example.com/{x}']
+URL_DOM = ['http://example.com/orders', 'http://example.com/a"b', 'http://example.com/a\\b', 'http://example.com/{x}',
+           # a URL without authority keeps quotes, braces and backslashes verbatim when it is parsed and printed again
+           'urn:hello:say"; pub fn marker() {} const _X: &str = "x\\y', 'urn:a{b}c']
 DOC_DOM = ['plain words', 'two\nlines', 'cr\rhere', 'a */ b', '"quoted" \\ {braces}']
 
 
